@@ -535,17 +535,40 @@ pub fn generated_leg(tier: Tier, seed: u64) -> crate::runner::RunResult {
     let mut cases: Vec<Case> = vec![];
     let mut tries = 0;
     let mut grammars = 0;
-    while grammars < ngrammars && tries < ngrammars * 20 {
+    // half of the grammars deterministic (raw table conflict free: LR and GLR parsers, every cell
+    // holds at most one action), half arbitrary (GLR only)
+    let (mut det, mut nondet) = (0, 0);
+    while grammars < ngrammars && tries < ngrammars * 40 {
         tries += 1;
         let mut c = strat.new_tree(&mut runner).unwrap().current();
         c.meta_tape = vec![];
         c.partial = false;
+        if tries % 3 == 0 {
+            // deterministic literature shapes without nullable symbols: every cell of their
+            // (also right-nulled) table holds at most one action
+            c.g.spec = gen::g_bnf(gen::BnfParams { templates_only: true, template_set: &[0, 3, 15, 19, 21, 25], ..gen::BnfParams::lr_small() })
+                .new_tree(&mut runner)
+                .unwrap()
+                .current();
+            c.layout_mode = 0;
+        }
         let text = spec_of(&c).render();
         let bnf = c.g.spec.bnf();
         if bnf.is_cyclic() {
             continue; // generated GLR code has no step budget: stay with acyclic grammars
         }
         let raw_ok = matches!(compile(&text, &Cfg::raw(crate::compile::TT::Pager)), Ok(d) if !has_conflicts(&d));
+        if raw_ok {
+            if det >= (ngrammars + 1) / 2 {
+                continue;
+            }
+            det += 1;
+        } else {
+            if nondet >= ngrammars / 2 {
+                continue;
+            }
+            nondet += 1;
+        }
         let mut any = false;
         for glr in [false, true] {
             if !glr && !raw_ok {
